@@ -2,8 +2,9 @@
 
 Correspondence: `find_snvs.bam_region_depths`, `find_snvs.write_vcf_block` (with the real depths and with prescribed depth
 tensors) and `mchap find-snvs` stdout on BAMs written from known ReadSpecs, against the Lean model
-(`Model/FindSnvs.lean`), which mirrors the code as it is — including the fact that the configured read filters never
-reach the pileup engine.
+(`Model/FindSnvs.lean`), which mirrors the code as it is: the configured read filters are translated into pysam's
+`flag_filter` / `min_mapping_quality`, everything else is left at the engine's defaults (secondary records masked, base
+quality >= 13, orphan mates dropped, overlapping mates merged).
 
 Implementation oracles: the PROPERTY evaluated independently — depths = base calls among the reads passing the
 *configured* filters, one generator stream per feature so that each deviation of the real code gets its own signature;
@@ -27,14 +28,16 @@ from .c06 import DUP, QCFAIL, SECONDARY, SUPP, UNMAPPED, Ctx, _name, rand_cigar,
 PROP = "C19"
 MODULE = "MCHap.Properties.C19"
 THEOREMS = [
-    "MCHap.C19.depths_config_independent",
-    "MCHap.C19.depths_monotone_in_filters",
+    "MCHap.C19.enginePasses_engineCfgOf",
     "MCHap.C19.depths_eq_spec_partial",
+    "MCHap.C19.filter_option_effect",
+    "MCHap.C19.depths_monotone_in_filters",
     "MCHap.C19.depths_ne_spec_witness",
+    "MCHap.C19.old_engine_regression",
     "MCHap.C19.specDepth_monotone_in_filters",
     "MCHap.C19.specDepth_filter_effect",
-    "MCHap.C19.indOk_iff",
     "MCHap.C19.keepAllele_iff",
+    "MCHap.C19.indOk_iff",
     "MCHap.C19.listed_iff_thresholds",
     "MCHap.C19.emitted_iff_two",
     "MCHap.C19.ref_first_masked_iff",
@@ -267,8 +270,11 @@ def dec(x: str) -> Fraction:
     return Fraction(x)
 
 
-def site_property(ref_char, ds, th):
-    """None (no usable reference) | dict with the sets / keys the property talks about"""
+def site_property(ref_char, ds, th, maf_over_all_samples=False):
+    """None (no usable reference) | dict with the sets / keys the property talks about.
+
+    `maf_over_all_samples` evaluates the --maf test the way the code did before /repo commit 6204576 (np.mean: NaN as soon as
+    a sample has no reads) — used only to attribute a deviation to that cause."""
     maf, mad, imaf, imad, minind = th
     refi = BASES.find(ref_char.upper())
     if refi < 0:
@@ -284,7 +290,10 @@ def site_property(ref_char, ds, th):
         mean.append(m)
         ok = n_ok >= minind
         if maf > 0:
-            ok = ok and m is not None and m >= maf
+            if maf_over_all_samples and any(freq[s][a] is None for s in range(len(ds))):
+                ok = False
+            else:
+                ok = ok and m is not None and m >= maf
         if mad > 0:
             ok = ok and sum(d[a] for d in ds) >= mad
         meets.append(ok)
@@ -399,7 +408,7 @@ def run(tier, replay=None):
         "the pileup engine (htslib bam_plp + pysam's PileupColumn.get_query_sequences) is modelled from its documented defaults "
         "and source (flag filter 0x704, min_base_quality 13, ignore_orphans, overlap quality tweak) and tied to the real engine only by "
         "the correspondence; max_depth = 8000 is never reached; at most two engine-passing alignments share a read name",
-        "thresholds are the decimal values typed on the command line (exact in the model); float comparisons of a mean of >= 2 "
+        "thresholds are the decimal values typed on the command line (exact in the model); float comparisons of a mean (over the samples with reads) of >= 2 "
         "sample frequencies that is exactly at --maf, and ALT order among exactly tied means with >= 2 samples, are compared as sets "
         "(Appendix A) and counted as tie-skipped",
         "ADMF is compared after rounding to 3 decimals (tolerance 5e-4)",
@@ -592,10 +601,10 @@ def run(tier, replay=None):
                         ms = [m for a, m in enumerate(pr["mean"]) if m is not None]
                         tie = len(set(ms)) < len(ms)
                         # a mean of >= 2 float frequencies that is exactly --maf: decided by rounding unless every term is dyadic
-                        if th[0] > 0 and not pr["zero_depth_sample"]:
+                        if th[0] > 0:
                             for a in range(4):
-                                fs = [f[a] for f in pr["freq"]]
-                                if sum(fs) / len(fs) == th[0] and not (dyadic(th[0]) and all(dyadic(f) for f in fs)):
+                                fs = [f[a] for f in pr["freq"] if f[a] is not None]
+                                if len(fs) >= 2 and sum(fs) / len(fs) == th[0] and not (dyadic(th[0]) and all(dyadic(f) for f in fs)):
                                     skip = True
                     tie_flags.append(tie)
                     skip_flags.append(skip)
@@ -630,7 +639,15 @@ def run(tier, replay=None):
                             chk.violation("a position whose reference base is not A/C/G/T was emitted", pc,
                                           "C19/write_vcf_block/non-acgt-reference")
                         continue
-                    code_nan_maf = th[0] > 0 and pr["zero_depth_sample"]
+                    code_nan_maf = False
+                    if th[0] > 0 and pr["zero_depth_sample"]:
+                        # is the record what the pre-6204576 --maf test (np.mean over all samples) would give?
+                        old = site_property(ref_contig[start + p], tensor[p], th, maf_over_all_samples=True)
+                        if rec is None:
+                            code_nan_maf = not old["emit"]
+                        else:
+                            code_nan_maf = old["emit"] and {BASES.find(a) for a in [rec["ref"]] + rec["alts"]} == \
+                                ({a for a in range(4) if old["meets"][a]} | {old["ref"]})
                     if skip_flags[p]:
                         continue
                     if (rec is not None) != pr["emit"]:
